@@ -72,7 +72,7 @@ pub fn date_pictures() -> Vec<String> {
 /// Lossless time pictures (for Time / the time part of Timestamp; `frac` = allow FF variants).
 pub fn time_pictures(frac: bool) -> Vec<String> {
     let mut out = Vec::new();
-    let fracs: Vec<&str> = if frac { vec!["", ".FF", ".FF6", ".FF9", ",FF7", " FF"] } else { vec![""] };
+    let fracs: Vec<&str> = if frac { vec!["", ".FF", ".FF6", ".FF9", ",FF7", " FF", "FF3", "FF1", "FF6", ".FF2"] } else { vec![""] };
     let hours: Vec<(Option<&str>, &str)> = vec![(None, "HH24"), (Some("AM"), "HH12"), (Some("am"), "HH"), (Some("A.M."), "HH12"), (Some("p.m."), "HH12"), (Some("PM"), "hh")];
     for sep in [":", "-", ".", " ", "", ";", "/"] {
         for (mer, h) in &hours {
